@@ -211,6 +211,8 @@ def run(ctx):
     from rules import c02
     c02.function_table(ctx, cr, "C07.h",
                        lambda n: n.endswith("$") or n in ("LEN", "ASC", "VAL", "INSTR"))
+    from rules import c08 as _c08
+    _c08.rule_c(common.Proxy(ctx, "C07.e"), cr.need_fn("mach::function::Function::asc"))
     common.selftest(ctx, "C07.a", ["raw_slice_from_number"], lambda col, f: check_slices(col, f))
     common.selftest(ctx, "C07.d", ["find_sentinel"], lambda col, f: rule_d(col, None, [f]))
 
